@@ -33,11 +33,21 @@ OUTSIDE = ["IDN / punycode hosts", "template rendering", "real sockets", "hosts 
 HOST_ALPHA = [(0x21, 0x40), (0x5B, 0x7E)]  # printable ASCII without space and A-Z
 
 
+def ref_strip_port(h):
+    """host without its port: a bracketed IPv6 literal keeps everything up to ']'"""
+    from symex.poly import pstartswith
+
+    if bool(pstartswith(h, "[")):
+        i = h.find("]")
+        return h if i == -1 else h[: i + 1]
+    return h.partition(":")[0]
+
+
 def ref_trusted(host, trusted):
     """label-wise reference: equal label lists, or a proper suffix for a dot entry"""
     if plen(host) == 0:
         return False
-    h = host.partition(":")[0]
+    h = ref_strip_port(host)
     hl = h.split(".")
     # the idna codec rejects empty (except one trailing) and over-long labels
     body = hl[:-1] if (len(hl) > 1 and plen(hl[-1]) == 0) else hl
@@ -45,7 +55,7 @@ def ref_trusted(host, trusted):
         return False
     for e in trusted:
         suffix = e.startswith(".")
-        e0 = (e[1:] if suffix else e).partition(":")[0]
+        e0 = ref_strip_port(e[1:] if suffix else e)
         el = e0.split(".")
         if len(hl) == len(el) and all(bool(peq(a, b)) for a, b in zip(hl, el)):
             return True
@@ -54,7 +64,7 @@ def ref_trusted(host, trusted):
     return False
 
 
-TRUSTED_LISTS = [["ab"], [".ab"], ["a.b", ".c"], ["ab:80"], ["localhost", ".localhost", "127.0.0.1"]]
+TRUSTED_LISTS = [["ab"], [".ab"], ["a.b", ".c"], ["ab:80"], ["localhost", ".localhost", "127.0.0.1"], ["[::1]", "c"], [".c", "d"]]
 
 
 def body_host_trust(I, X, n=3, tl=0, via="host_is_trusted"):
@@ -230,6 +240,17 @@ def body_debugger(I, X, cmd="eval", hn=3, secret="right", cookie_kind="absent"):
             ok = pand(ok, pimplies(locked, exhausted is True))
         # and authentication needs a valid cookie or the right pin
         ok = pand(ok, pimplies(auth is True, por(cookie_ok, args.get("pin") == right_pin)))
+        # the counting step: every failed attempt adds exactly one (so that "more than ten
+        # failures" is reached after eleven), a success by PIN resets, nothing else changes
+        after = app._failed_pin_auth.value
+        if cookie_kind == "wrong-hash":
+            ok = pand(ok, peq(after, counter + 1))
+        elif cookie_kind == "valid-hash":
+            ok = pand(ok, pimplies(cookie_ok, peq(after, counter)))
+        if cookie_kind in ("absent", "malformed"):
+            wrong = args.get("pin") != right_pin
+            ok = pand(ok, pimplies(counter > 10, peq(after, counter)))
+            ok = pand(ok, pimplies(counter <= 10, peq(after, counter + 1) if wrong else peq(after, 0)))
     obs = {"evaluated": evaluated, "security_error": is_sec_err, "auth": auth, "exhausted": exhausted,
            "resp": type(response).__name__ if not callable(getattr(response, "__name__", None)) else "app",
            "failed_after": app._failed_pin_auth.value}
